@@ -17,7 +17,8 @@
 (***************************************************************************)
 EXTENDS Integers, Sequences, FiniteSets, TLC, Json
 
-CONSTANTS N, H, MaxView, Byz, AmevOn, DevEarlyCommitUnverified, Weaken, Emit, EmitLen, MaxSteps
+CONSTANTS N, H, MaxView, Byz, AmevOn, DevEarlyCommitUnverified, Weaken, Emit, EmitLen, MaxSteps,
+          Skel   \* <<>>: free exploration; else an ATTACK SKELETON, a sequence of abstract steps [n, k, from, v, c] the scheduler must follow (see Follows)
 
 Node == INSTANCE DbftNode
 
@@ -55,7 +56,28 @@ ByzMenu ==
        \cup (IF AmevOn THEN {[t |-> "Commit", h |-> H, v |-> v, from |-> b, s |-> b, b |-> BlockOf(ph)] : ph \in Props(v)} ELSE {})
        \cup {[t |-> "Commit", h |-> H, v |-> v, from |-> b, s |-> -1, b |-> [h |-> 0, prev |-> "", ts |-> 0, nonce |-> "junk:junk0", txs |-> <<>>]]}
        \cup {[t |-> "ChangeView", h |-> H, v |-> v, from |-> b, ts |-> Now, nv |-> v + 1, reason |-> 0]}
+       \cup {[t |-> "RecoveryRequest", h |-> H, v |-> v, from |-> b, ts |-> Now]}
      : b \in Byz, v \in Views }
+
+\* Attack skeletons.  A skeleton names, step by step, WHO does WHAT: node n starts ("Start"), its timer fires ("TO"), or it is
+\* given a payload of type k from validator `from` carrying view v.  The payload itself is computed by the model: for an honest
+\* sender it is whatever that node has broadcast of that kind (any of them), for a Byzantine sender the menu entry built on the
+\* proposal selected by c (0 = the honest proposal of view v, 1 / 2 = the Byzantine primary's own contents).  TLC runs the
+\* skeleton on a WEAKENED model to confirm that it ends in a fork (then it is an attack worth keeping) and on the faithful one
+\* to confirm that it does not; the concrete schedule (hist.evs) is executed on real nodes in closed loop.
+NoSkel == <<>>
+Pos == hist.steps + 1
+SelProp(v, c) == IF c = 0 THEN (IF HonestProps(v) = {} THEN [h |-> 0] ELSE CHOOSE p \in HonestProps(v) : TRUE) ELSE ByzHash(v, c)
+Follows(i, k, m) ==
+  \/ Skel = <<>>
+  \/ /\ Pos <= Len(Skel)
+     /\ LET s == Skel[Pos] IN
+          /\ s.n = i /\ s.k = k
+          /\ k \in {"Start", "TO"} \/
+               ( /\ m.t = k /\ m.from = s.from /\ m.v = s.v
+                 /\ (s.from \in Byz /\ k = "PrepareResponse") => m.ph = SelProp(s.v, s.c)
+                 /\ (s.from \in Byz /\ k \in {"Commit", "PreCommit"}) => (m.s = s.from /\ m.b = BlockOf(SelProp(s.v, s.c)))
+                 /\ (s.from \in Byz /\ k = "PrepareRequest") => m.nonce = ByzHash(s.v, s.c).nonce )
 
 Record(i, call, arg, env, o) ==
   /\ xs' = [xs EXCEPT ![i] = Strip(o)]
@@ -67,7 +89,7 @@ Init ==
   /\ xs = [i \in Honest |-> Node!Blank(Cfg)]
 
 StartNode(i) ==
-  /\ ~xs[i].started
+  /\ ~xs[i].started /\ Follows(i, "Start", [t |-> "none"])
   /\ \E o \in Node!Api(xs[i], "Start", [ts |-> 4000], EnvOf(i, 0)) :
        /\ xs' = [xs EXCEPT ![i] = Strip(o)]
        /\ net' = net \cup Bcasts(o.out)
@@ -77,14 +99,14 @@ StartNode(i) ==
 AllStarted == \A i \in Honest : xs[i].started
 
 Deliver(i, m) ==
-  /\ AllStarted /\ m.from # i
+  /\ AllStarted /\ m.from # i /\ Follows(i, m.t, m)
   /\ LET env == EnvOf(i, xs[i].v + 1) IN
      \E o \in Node!Api(xs[i], "OnReceive", m, env) :
        /\ Strip(o) # xs[i] \/ o.out # <<>>
        /\ Record(i, "OnReceive", m, env, o)
 
 Timeout(i) ==
-  /\ AllStarted /\ xs[i].timer.k = "t" /\ ~xs[i].blockDone
+  /\ AllStarted /\ xs[i].timer.k = "t" /\ ~xs[i].blockDone /\ Follows(i, "TO", [t |-> "none"])
   /\ LET arg == [h |-> xs[i].timer.h, v |-> xs[i].timer.v]
          env == EnvOf(i, xs[i].v) IN
      \E o \in Node!Api(xs[i], "OnTimeout", arg, env) : Record(i, "OnTimeout", arg, env, o)
